@@ -546,6 +546,8 @@ class FlatLinearOperator(ScipyLinearOperator):
             if np.any(npc_vec.qtotal != self._charge_sector):
                 raise ValueError("npc_vec.qtotal and charge sector don't match!")
             if self.compact_flat:
+                if len(npc_vec._data) == 0:  # e.g. result of a matvec with an operator that vanishes in this sector
+                    return np.zeros(self.shape[0], npc_vec.dtype)
                 assert len(npc_vec._data) == 1
                 assert np.all(npc_vec._qdata == self._compact_qdata)
                 return npc_vec._data[0]
